@@ -394,7 +394,7 @@ theorem checkKeys_sound (h : List Op) (keys : List Bytes) (hc : checkKeys h keys
         rw [List.mem_filterMap] at this ⊢
         obtain ⟨op, hop, hk⟩ := this
         exact ⟨op, List.mem_reverse.mp hop, hk⟩
-      rcases hcov k hm with hn | hin
+      rcases hcov k (List.mem_eraseDups.mpr hm) with hn | hin
       · rw [hn] at hb; cases hb
       · exact hin
   · exact pairwise_of_filterMap (birth h) keys hall (strictlyIncreasing_pairwise _ hinc)
